@@ -29,6 +29,7 @@ type postCond struct {
 }
 
 type relEngine struct {
+	threadDepth int
 	c     *Ctx
 	f     *ssa.Function
 	fe    *formEval
@@ -274,6 +275,40 @@ func (e *relEngine) factsAt(from, b *ssa.BasicBlock) []linFact {
 		}
 		out = append(out, e.instantiate(pc, call)...)
 	})
+	// merge blocks that dominate the point and can, given what is known there,
+	// only have been entered over one edge (correlated phis: e.g. the merged
+	// returns of an inlined helper behind the caller's error test): what held at
+	// the end of that predecessor still holds
+	if e.threadDepth < 3 {
+		e.threadDepth++
+		for _, m := range e.f.Blocks {
+			if len(m.Preds) < 2 || m == target || !m.Dominates(target) {
+				continue
+			}
+			var ph *ssa.Phi
+			for _, ins := range m.Instrs {
+				if p, ok := ins.(*ssa.Phi); ok {
+					ph = p
+					break
+				}
+			}
+			if ph == nil {
+				continue
+			}
+			only, n := -1, 0
+			for i := range m.Preds {
+				if phiEdgeFeasible(ph, i, target) {
+					only = i
+					n++
+				}
+			}
+			if n == 1 {
+				out = append(out, e.factsAt(m.Preds[only], m)...)
+				out = append(out, e.factsAt(nil, m.Preds[only])...)
+			}
+		}
+		e.threadDepth--
+	}
 	return out
 }
 
@@ -408,7 +443,7 @@ func (e *relEngine) prove(d poly, c int64, from, b *ssa.BasicBlock) (bool, strin
 			continue
 		}
 		all := true
-		for _, lf := range leavesOf(ph) {
+		for _, lf := range feasibleLeaves(ph, b) {
 			sub := d.clone()
 			delete(sub, mono)
 			sub = polyAdd(sub, polyMul(constPoly(cf), e.fe.eval(lf.val)), 1)
@@ -548,4 +583,24 @@ func (e *relEngine) phiLower(ph *ssa.Phi) (int64, bool) {
 		return 0, false
 	}
 	return lo, true
+}
+
+// feasibleLeaves: the reaching definitions of ph, without those that come in
+// over an edge contradicting what is known at block `at` about a sibling phi.
+func feasibleLeaves(ph *ssa.Phi, at *ssa.BasicBlock) []phiLeaf {
+	var out []phiLeaf
+	for i, e := range ph.Edges {
+		if !phiEdgeFeasible(ph, i, at) {
+			continue
+		}
+		if inner, ok := e.(*ssa.Phi); ok && inner != ph {
+			out = append(out, leavesOf(inner)...)
+			continue
+		}
+		out = append(out, phiLeaf{val: e, from: ph.Block().Preds[i], at: ph.Block()})
+	}
+	if len(out) == 0 {
+		return leavesOf(ph)
+	}
+	return out
 }
